@@ -309,6 +309,35 @@ def scenarios():
             steps.append(call('c0', probe))
             scen('host-writes-into-resolved-Config/%s/%s' % (t, syn),
                  _w([dict(base, id='c0', holder='Config'), dict(base, id='c1', holder='dict'), dict(base, id='c2', holder='Config')]), steps)
+    # 3b. natural failures in every stage, each followed by looks at state the stage may have left behind
+    mfail = ['ul>li*3>a[title=${nope}]', 'ol>li*4>{$#}', 'p{${1:foo', 'a[title="${1', 'a[href=${1', 'div>(p', 'a"', 'ul>li*2>a)', 'div{${x', 'p>(a+b',
+             '(a>b)*3>c[d="e]', 'ul>.item$*4>{${undefined}}', 'div*2>p*3>{$#}', 'a[b=c d="e', 'x{y}}>z[', 'lorem3*2>{$#}']
+    mprobe = ['li.item$@-', 'h$@3+p.c$$', 'ul>li.item*2>a', 'a+img', '!', 'p{a ${1:b}}+q[t]', '.x>.-y', 'ul>li*']
+    sfail = ['m10 p10', 'foo(!)', 'p${1', 'p10)', 'd:b;', 'm10+', 'c#zz(', "cnt:'x", 'lg(#f', 'm(1', '@kf)']
+    sprobe = ['m10', 'bd', 'zom+p5', 'c#f', 'kmar+klh', 'trf-s', '@kf', 'm:a']
+    for holder in ('dict', 'Config'):
+        c0 = {'id': 'c0', 'holder': holder, 'text': ['t1', 't2'], 'snippets': dict(USER_SN), 'options': {'bem.enabled': True}}
+        c1 = {'id': 'c1', 'holder': 'dict'}
+        for grp in (mfail[:6], mfail[6:11], mfail[11:]):
+            steps = []
+            for f in grp:
+                steps.append(dict(call('c0', f), nat='F1'))
+                for pr in mprobe:
+                    steps.append(call('c0', pr))
+                    steps.append(call('c1', pr))
+            scen('failure-then-looks/markup/%s/%s' % (holder, grp[0]), _w([c0, c1]), steps)
+        s0 = {'id': 'c0', 'holder': holder, 'type': 'stylesheet', 'cache': 'k0', 'snippets': STYLE_SN}
+        s1 = {'id': 'c1', 'holder': 'dict', 'type': 'stylesheet'}
+        s2 = {'id': 'c2', 'holder': 'dict', 'type': 'stylesheet', 'cache': 'k0', 'snippets': STYLE_SN, 'options': {'stylesheet.intUnit': 'pt'}}
+        steps = []
+        for f in sfail:
+            steps.append(dict(call('c0', f), nat='F1'))
+            for pr in sprobe:
+                steps.append(call('c0', pr))
+                steps.append(call('c1', pr))
+                steps.append(call('c2', pr))
+        scen('failure-then-looks/stylesheet/%s' % holder, _w([s0, s1, s2], caches=['k0']), steps)
+
     # 4. unbounded growth with distinct inputs (census only, no references)
     scen('distinct-inputs/markup-html', _w([{'id': 'c0', 'holder': 'dict', 'options': {'bem.enabled': True, 'comment.enabled': True}}]),
          [{'op': 'soak_distinct', 'cfg': 'c0'}])
